@@ -85,3 +85,107 @@ func TestVerifC19_arith_invuint64(t *testing.T) {
 	r.RequireCounter("inverses_exact", 1)
 	r.RequireCounter("aggregator_counts_exact", 1)
 }
+
+// c19CodecSweep: decoder round trip of every limb-boundary value, as a single element and at every
+// position of a 3-element vector. Values below p must decode, re-encode to the same bytes and behave
+// as that integer (x+1 compared with math/big); values >= p must be refused.
+func c19CodecSweep[V arith.Vec[V, E], E arith.Elt, F arith.Fp[E]](r *verifmc.Run, fld *prio.Field, vals []*big.Int) {
+	raw := func(x *big.Int) []byte {
+		be := x.FillBytes(make([]byte, fld.Size))
+		for a, b := 0, len(be)-1; a < b; a, b = a+1, b-1 {
+			be[a], be[b] = be[b], be[a]
+		}
+		return be
+	}
+	one := F(new(E))
+	one.SetOne()
+	for _, val := range vals {
+		canonical := val.Cmp(fld.P) < 0
+		name := fmt.Sprintf("%x", val)
+		if d := new(big.Int).Sub(val, fld.P); d.IsInt64() && d.Int64() >= -2 && d.Int64() <= 1 {
+			name = map[int64]string{-2: "p-2", -1: "p-1", 0: "p", 1: "p+1"}[d.Int64()]
+		}
+		for pos := -1; pos < 3; pos++ { // -1: single element
+			caseID := fmt.Sprintf("codec|%s|%s|pos%d", fld.Name, name, pos)
+			if !r.Want(caseID) {
+				continue
+			}
+			r.Eval(1)
+			r.Distinct(caseID)
+			what := "Fp.UnmarshalBinary"
+			var err error
+			var back, plus1 []byte
+			var b []byte
+			panicked, pw := verifmc.Try(func() {
+				if pos < 0 {
+					b = raw(val)
+					x := F(new(E))
+					if err = x.UnmarshalBinary(b); err == nil {
+						back, _ = x.MarshalBinary()
+						x.AddAssign((*E)(one))
+						plus1, _ = x.MarshalBinary()
+					}
+					return
+				}
+				what = "Vec.UnmarshalBinary"
+				for k := 0; k < 3; k++ {
+					if k == pos {
+						b = append(b, raw(val)...)
+					} else {
+						b = append(b, raw(big.NewInt(1))...)
+					}
+				}
+				v := arith.NewVec[V](3)
+				if err = v.UnmarshalBinary(b); err == nil {
+					back, _ = v.MarshalBinary()
+					x := F(&v[pos])
+					x.AddAssign((*E)(one))
+					plus1, _ = x.MarshalBinary()
+				}
+			})
+			key := func(cls string) string { return fmt.Sprintf("C19|%s.%s|%s|%s", fld.Name, what, cls, name) }
+			payload := map[string]interface{}{"field": fld.Name, "value_hex": fmt.Sprintf("%x", val), "position": pos, "bytes_hex": fmt.Sprintf("%x", b)}
+			switch {
+			case panicked:
+				r.Violation(key("panic:"+verifmc.PanicClass(pw)), caseID, fmt.Sprintf("%s %s of %s: panic: %s", fld.Name, what, name, pw), payload)
+			case canonical && err != nil:
+				r.Violation(key("canonical-element-refused"), caseID,
+					fmt.Sprintf("%s: %s refuses the valid field element %s (bytes %x, position %d): %v", fld.Name, what, name, raw(val), pos, err), payload)
+			case canonical && (!bytes.Equal(back, b) || !bytes.Equal(plus1, fld.Enc(new(big.Int).Add(val, big.NewInt(1))))):
+				r.Violation(key("decoded-value-wrong"), caseID,
+					fmt.Sprintf("%s: %s of %s: re-encoded %x, x+1 = %x", fld.Name, what, name, back, plus1), payload)
+			case !canonical && err == nil:
+				r.Violation(key("noncanonical-element-accepted"), caseID, fmt.Sprintf("%s: %s accepts %s >= p", fld.Name, what, name), payload)
+			case canonical:
+				r.Count("canonical_accepted", 1)
+			default:
+				r.Count("noncanonical_refused", 1)
+			}
+		}
+	}
+}
+
+func TestVerifC19_arith_codec(t *testing.T) {
+	r := verifmc.Start(t, "C19", "arith_codec")
+	defer r.Finish()
+	r.Rule("complete product of limb-boundary values (Field64: 12 values around 0, 2^32, p, 2^64; Field128: high limb in {0,1,P1-1,P1,P1+1,2^64-1} x low limb in {0,1,2,2^64-2,2^64-1}) " +
+		"decoded as a single element and at each position of a 3-element vector; below p: accepted, same bytes back, x+1 as in math/big; from p on: refused; non-trivial = each distinct (field, value, position)")
+	u := func(x uint64) *big.Int { return new(big.Int).SetUint64(x) }
+	p64 := prio.F64.P.Uint64()
+	var v64 []*big.Int
+	for _, x := range []uint64{0, 1, 2, 1<<32 - 1, 1 << 32, 1<<32 + 1, p64 - 2, p64 - 1, p64, p64 + 1, 1<<64 - 2, 1<<64 - 1} {
+		v64 = append(v64, u(x))
+	}
+	hiP := new(big.Int).Rsh(prio.F128.P, 64).Uint64()
+	var v128 []*big.Int
+	for _, hi := range []uint64{0, 1, hiP - 1, hiP, hiP + 1, 1<<64 - 1} {
+		for _, lo := range []uint64{0, 1, 2, 1<<64 - 2, 1<<64 - 1} {
+			v128 = append(v128, new(big.Int).Add(new(big.Int).Lsh(u(hi), 64), u(lo)))
+		}
+	}
+	c19CodecSweep[fp64.Vec, fp64.Fp, *fp64.Fp](r, prio.F64, v64)
+	c19CodecSweep[fp128.Vec, fp128.Fp, *fp128.Fp](r, prio.F128, v128)
+	r.Sample(map[string]interface{}{"field": "Field128", "p_minus_1_bytes_le": fmt.Sprintf("%x", prio.F128.Enc(new(big.Int).Sub(prio.F128.P, big.NewInt(1))))})
+	r.RequireCounter("canonical_accepted", 1)
+	r.RequireCounter("noncanonical_refused", 1)
+}
